@@ -2,9 +2,9 @@ package main
 
 import (
 	"context"
-	"os"
 	"errors"
 	"fmt"
+	"os"
 	"sort"
 	"strings"
 	"sync"
